@@ -9,6 +9,10 @@
           (msg_close_channel_end_reply is exempt: its assertion depends on the `claimed` flag of
           the handle, which the wire does not show — see Proto/ClientView.v patch_close);
      real `pan <other fn>` / `err`: not a matter of the acceptance automaton (SKIP).
+   A client that has decided to shut down ignores what it still receives (drain_transport); the
+   tap sees its Shutdown only when it is flushed, so a message the automaton refuses although the
+   client returned Ok is a disagreement only if the client demonstrably was still active, i.e.
+   sent a request after it (otherwise SKIP).
    Output, one line per session: `AGREE|DISAGREE|SKIP <case> <client> real=<..> model=<..> recv=<n>`. *)
 open Clientview_model
 
@@ -161,6 +165,7 @@ let () =
                 let stop_at = ref (-1) in
                 (* the first message in each direction is the handshake (before Client::run) *)
                 let hs_sent = ref false and hs_recv = ref false in
+                let last_active_send = ref (-1) in
                 (try
                    List.iteri
                      (fun idx item ->
@@ -171,7 +176,7 @@ let () =
                             | Some OtherToBroker when dir = "S" && not !hs_sent -> hs_sent := true
                             | Some OtherToBroker when dir = "R" && not !hs_recv -> hs_recv := true
                             | Some m ->
-                                if dir = "R" then (incr nrecv; last_recv := idx);
+                                if dir = "R" then (incr nrecv; last_recv := idx) else last_active_send := idx;
                                 if !stop_at < 0 then begin
                                   let w = if dir = "S" then WSent m else WRecv m in
                                   let v', code = replay_step !v w in
@@ -190,7 +195,8 @@ let () =
                 let starts p s = String.length s >= String.length p && String.sub s 0 (String.length p) = p in
                 let res =
                   if !stop_at = -2 then "DISAGREE"
-                  else if real = "ok" || real = "none" then (if !stop_at < 0 then "AGREE" else "DISAGREE")
+                  else if real = "ok" || real = "none" then
+                    (if !stop_at < 0 then "AGREE" else if !stop_at > !last_active_send then "SKIP" else "DISAGREE")
                   else if real = "rej" then (if starts "rej" !model && at_last then "AGREE" else "DISAGREE")
                   else if starts "pan msg_close_channel_end_reply" real then
                     (if !stop_at < 0 || (starts "pan" !model && at_last) then "SKIP" else "DISAGREE")
